@@ -29,6 +29,13 @@ type Case struct {
 	Gate   bool     `json:"gate"`   // the invoked function waits on a gate; nobody may return before it opens
 	Late   int      `json:"late"`   // the last Late goroutines start only after the others have finished
 	Jitter uint64   `json:"jitter"` // seed of the per-goroutine yields before each call
+
+	// scenarios in which the first invoked function does not return normally (Exit != ""):
+	// goroutine 0 calls Do with a function that leaves through Exit; Waiters goroutines call Do while
+	// that function is still running (held on a gate); Later goroutines call Do after it has left.
+	Exit    string `json:"exit,omitempty"` // goexit | panic | return
+	Waiters int    `json:"waiters,omitempty"`
+	Later   int    `json:"later,omitempty"`
 }
 
 func init() {
@@ -105,6 +112,9 @@ func mkProgs(r *core.Rand, arity, n, maxCalls, maxSteps int, distinct bool) [][]
 }
 
 func run(c *core.Ctx) {
+	if c.Tier == "race" {
+		hang, barrierMax = 30*time.Second, 8
+	}
 	// small scenarios (also explored exhaustively by the model): one goroutine making 1-2 calls,
 	// or two goroutines making one call each; 0-1 user steps
 	for arity := 1; arity <= 3; arity++ {
@@ -124,7 +134,7 @@ func run(c *core.Ctx) {
 						progs[t] = append(progs[t], Call{steps * (1 - t), res})
 					}
 				}
-				exec(c, Case{arity, progs, n == 2 && rep%2 == 1, 0, c.Rng.Uint64()})
+				exec(c, Case{Arity: arity, Progs: progs, Gate: n == 2 && rep%2 == 1, Jitter: c.Rng.Uint64()})
 			}
 		}
 	}
@@ -136,10 +146,46 @@ func run(c *core.Ctx) {
 					if late >= k {
 						continue
 					}
-					exec(c, Case{arity, mkProgs(c.Rng, arity, k, 2, 2, true), true, late, c.Rng.Uint64()})
+					exec(c, Case{Arity: arity, Progs: mkProgs(c.Rng, arity, k, 2, 2, true), Gate: true, Late: late, Jitter: c.Rng.Uint64()})
 				}
 			}
 		}
+	}
+	// the first invoked function does not return normally: sync.Once counts it as done all the same
+	for rep := 0; rep < c.N(2, 6, 4); rep++ {
+		for _, exit := range []string{"goexit", "panic", "return"} {
+			for arity := 1; arity <= 3; arity++ {
+				for _, k := range []int{1, 2, 3, 15, 16, 17, 63, 64, 65} {
+					exec(c, Case{Arity: arity, Exit: exit, Later: k})                   // later callers only
+					exec(c, Case{Arity: arity, Exit: exit, Waiters: k, Later: 1 + k%3}) // callers already waiting
+					exec(c, Case{Arity: arity, Exit: exit, Waiters: 1 + k%3, Later: k})
+				}
+			}
+		}
+	}
+	// oracle-heavy stream: many goroutines / many calls per goroutine (model-sampled: only the small ones go to Coq)
+	sizes := []int{15, 16, 17, 31, 32, 33, 63, 64, 65, 127, 128, 129, 255, 256, 257, 1023, 1024, 1025, 2047, 2048, 2049, 4095, 4096, 4097}
+	if c.Tier == "race" {
+		sizes = sizes[:12] // the race detector is slow with thousands of goroutines
+	}
+	for _, sz := range sizes {
+		arity := 1 + sz%3
+		// sz goroutines, one call each
+		exec(c, Case{Arity: arity, Progs: mkProgs(c.Rng, arity, sz, 1, 1, true), Gate: sz%2 == 1, Late: sz / 3, Jitter: c.Rng.Uint64()})
+		// few goroutines, sz calls in total
+		g := 1 + c.Rng.Intn(4)
+		progs := make([][]Call, g)
+		for i := 0; i < sz; i++ {
+			t := i % g
+			res := make([]int, arity)
+			for j := range res {
+				res[j] = 1000*(t+1) + i + j
+			}
+			progs[t] = append(progs[t], Call{Steps: c.Rng.Intn(2), Res: res})
+		}
+		exec(c, Case{Arity: arity, Progs: progs, Jitter: c.Rng.Uint64()})
+		// one function with sz user steps
+		exec(c, Case{Arity: arity, Progs: [][]Call{{{Steps: sz, Res: make([]int, arity)}}, {{Steps: 1, Res: []int{7, 8, 9}[:arity]}}}, Jitter: c.Rng.Uint64()})
 	}
 	c.Note("all of: arity 1..3 x 1..16 goroutines with the invoked function gated, with and without late callers; small scenarios (<= 2 goroutines) also checked against every schedule of the model; plus random free-running scenarios")
 	// free-running random scenarios
@@ -153,14 +199,27 @@ func run(c *core.Ctx) {
 		if c.Rng.Chance(30) {
 			late = c.Rng.Intn(n)
 		}
-		exec(c, Case{arity, mkProgs(c.Rng, arity, n, 3, 3, c.Rng.Chance(60)), c.Rng.Chance(10), late, c.Rng.Uint64()})
+		exec(c, Case{Arity: arity, Progs: mkProgs(c.Rng, arity, n, 3, 3, c.Rng.Chance(60)), Gate: c.Rng.Chance(10), Late: late, Jitter: c.Rng.Uint64()})
 	}
 }
 
-const hang = 3 * time.Second
+// hang is how long a scenario may take before it is reported as blocked; after 3 such reports the run
+// stops executing scenarios (a deadlocking implementation would otherwise take for ever).
+var (
+	hang       = 10 * time.Second
+	hangs      int32
+	barrierMax = 64
+)
 
 func exec(c *core.Ctx, cs Case) {
+	if atomic.LoadInt32(&hangs) >= 3 {
+		return
+	}
 	c.Begin(cs)
+	if cs.Exit != "" {
+		execExit(c, cs)
+		return
+	}
 	n := len(cs.Progs)
 	c.Count(fmt.Sprintf("arity_%d", cs.Arity))
 	switch {
@@ -219,7 +278,7 @@ func exec(c *core.Ctx, cs Case) {
 		jr := core.NewRand(cs.Jitter + uint64(t)*7919)
 		// release the goroutines of a group at the same instant (spin, so that they really run in parallel)
 		atomic.AddInt32(&ready, 1)
-		for i := 0; atomic.LoadInt32(&ready) < int32(group); i++ {
+		for i := 0; group <= barrierMax && atomic.LoadInt32(&ready) < int32(group); i++ {
 			if i%200000 == 199999 {
 				runtime.Gosched()
 			}
@@ -242,6 +301,7 @@ func exec(c *core.Ctx, cs Case) {
 		case <-done:
 			return true
 		case <-time.After(hang):
+			atomic.AddInt32(&hangs, 1)
 			return false
 		}
 	}
@@ -263,6 +323,7 @@ func exec(c *core.Ctx, cs Case) {
 			}
 			early = atomic.LoadInt64(&returned)
 		case <-time.After(hang):
+			atomic.AddInt32(&hangs, 1)
 			hung = true
 			c.Fail("no function was invoked", "goroutines called Do but none of the functions ran within 3s")
 		}
@@ -330,7 +391,11 @@ func exec(c *core.Ctx, cs Case) {
 		}
 	}
 
-	// ---- the observation as a Coq case ----
+	// ---- the observation as a Coq case (large scenarios are checked by the oracle only) ----
+	if n > 33 || total > 100 {
+		c.Count("oracle_only_large")
+		return
+	}
 	progs := make([]string, n)
 	for t, p := range cs.Progs {
 		calls := make([]string, len(p))
@@ -348,4 +413,128 @@ func exec(c *core.Ctx, cs Case) {
 		rt[t] = core.ZListList(rets[t])
 	}
 	c.Emit(strings.Join([]string{"Case", core.Z(cs.Arity), core.List(progs), core.List(rs), core.List(rt), core.Z(int(early))}, " "))
+}
+
+// execExit: goroutine 0's function is the first to be invoked and leaves through cs.Exit. Whatever the
+// exit, the Once is consumed: no other function may ever be invoked (with the real sync.Once the other
+// calls return the fields as they are: the results on a normal return, zero values otherwise).
+// These scenarios are checked by the oracle only: the Coq model has no "function does not return" step.
+func execExit(c *core.Ctx, cs Case) {
+	c.Count("exit_" + cs.Exit)
+	c.Count(fmt.Sprintf("arity_%d", cs.Arity))
+	if cs.Waiters > 0 {
+		c.Count("exit_with_waiting_callers")
+	}
+	c.Nontrivial()
+	d := newDoer(cs.Arity)
+	var invoked int64
+	var mu sync.Mutex
+	var who []int
+	res0 := []int{11, 12, 13}[:cs.Arity]
+	want := make([]int, cs.Arity) // zero values
+	if cs.Exit == "return" {
+		want = res0
+	}
+	entered := make(chan struct{})
+	gate := make(chan struct{})
+	done0 := make(chan struct{})
+	note := func(id int) {
+		atomic.AddInt64(&invoked, 1)
+		mu.Lock()
+		who = append(who, id)
+		mu.Unlock()
+	}
+	go func() {
+		defer close(done0)
+		defer func() { recover() }()
+		d.Do(func() []int {
+			note(0)
+			close(entered)
+			<-gate
+			switch cs.Exit {
+			case "goexit":
+				runtime.Goexit()
+			case "panic":
+				panic("c17: the action panics")
+			}
+			return res0
+		})
+	}()
+	select {
+	case <-entered:
+	case <-time.After(hang):
+		atomic.AddInt32(&hangs, 1)
+		c.Fail("no function was invoked", "exit scenario")
+		close(gate)
+		return
+	}
+	total := cs.Waiters + cs.Later
+	rets := make([][]int, total)
+	caller := func(id int, wg *sync.WaitGroup) {
+		defer wg.Done()
+		rets[id-1] = d.Do(func() []int {
+			note(id)
+			r := make([]int, cs.Arity)
+			for j := range r {
+				r[j] = 100*id + j
+			}
+			return r
+		})
+	}
+	wait := func(wg *sync.WaitGroup) bool {
+		ch := make(chan struct{})
+		go func() { wg.Wait(); close(ch) }()
+		select {
+		case <-ch:
+			return true
+		case <-time.After(hang):
+			atomic.AddInt32(&hangs, 1)
+			return false
+		}
+	}
+	var wg1 sync.WaitGroup
+	wg1.Add(cs.Waiters)
+	for i := 1; i <= cs.Waiters; i++ {
+		go caller(i, &wg1)
+	}
+	if cs.Waiters > 0 {
+		time.Sleep(200 * time.Microsecond) // let them reach the Once
+	}
+	close(gate)
+	select {
+	case <-done0:
+	case <-time.After(hang):
+		atomic.AddInt32(&hangs, 1)
+		c.Fail("Do did not return", "first caller")
+		return
+	}
+	if !wait(&wg1) {
+		c.Fail("Do did not return", "a caller that was waiting while the first function ran is still blocked after it left through "+cs.Exit)
+		return
+	}
+	var wg2 sync.WaitGroup
+	wg2.Add(cs.Later)
+	for i := cs.Waiters + 1; i <= total; i++ {
+		go caller(i, &wg2)
+	}
+	if !wait(&wg2) {
+		c.Fail("Do did not return", "later caller blocked after the first function left through "+cs.Exit)
+		return
+	}
+	if n := atomic.LoadInt64(&invoked); n != 1 {
+		mu.Lock()
+		c.Fail(fmt.Sprintf("%d functions were invoked, want exactly 1", n),
+			fmt.Sprintf("the first function left through %s; functions invoked (0 = first caller): %v", cs.Exit, who))
+		mu.Unlock()
+	}
+	for i, r := range rets {
+		if !core.Eq(r, want) {
+			c.Fail("Do returned values other than those of the invocation",
+				fmt.Sprintf("first function left through %s; caller %d got %v, want %v", cs.Exit, i+1, r, want))
+			break
+		}
+	}
+	if !core.Eq(d.Fields(), want) {
+		c.Fail("fields R1.. differ from the invocation's results", fmt.Sprintf("%v after exit through %s", d.Fields(), cs.Exit))
+	}
 }
